@@ -73,24 +73,37 @@ class Session:
     def acquire(self, e, **kw):
         return self.run(e, self.w.acquire(e, **kw))
 
-    def rekey_child(self, e, which=0):
+    def _kids(self, e):
         kids = [(s, c) for s in self.w.sas(e) for c in s.child_sas]
+        if not kids:
+            # every history starts with a negotiation between compatible configurations: it must have installed a CHILD_SA
+            raise OracleError('child_missing', f'endpoint {e} holds no CHILD_SA although the negotiations so far ({self.kinds}) should have produced one')
+        return kids
+
+    def rekey_child(self, e, which=0):
+        kids = self._kids(e)
         s, c = kids[which % len(kids)]
         return self.run(e, self.w.expire(e, bytes(c.inbound_spi), False, proto=50 if c.proposal.protocol_id == 3 else 51))
 
     def delete_child(self, e, which=0):
-        kids = [(s, c) for s in self.w.sas(e) for c in s.child_sas]
+        kids = self._kids(e)
         s, c = kids[which % len(kids)]
         return self.run(e, self.w.expire(e, bytes(c.inbound_spi), True, proto=50 if c.proposal.protocol_id == 3 else 51))
 
+    def _established(self, e):
+        sa = next((s for s in self.w.sas(e) if s.state == IkeSa.State.ESTABLISHED), None)
+        if sa is None:
+            raise OracleError('ike_missing', f'endpoint {e} holds no established IKE_SA although the exchanges so far ({self.kinds}) completed')
+        return sa
+
     def delete_ike(self, e):
         """The IKE_SA reaches its hard lifetime limit: DELETE exchange; both ends drop it (a later ACQUIRE starts a new IKE_SA on the same configuration)."""
-        sa = next(s for s in self.w.sas(e) if s.state == IkeSa.State.ESTABLISHED)
+        sa = self._established(e)
         sa.delete_ike_sa_at = self.w.now - 1
         return self.run(e, self.w.timer(e, sa, 'check_rekey_ike_sa_timer'))
 
     def rekey_ike(self, e):
-        sa = next(s for s in self.w.sas(e) if s.state == IkeSa.State.ESTABLISHED)
+        sa = self._established(e)
         sa.rekey_ike_sa_at = self.w.now - 1
         req = self.w.timer(e, sa, 'check_rekey_ike_sa_timer')
         sa.rekey_ike_sa_at = self.w.now + 1e9
